@@ -186,7 +186,7 @@ func defaultContentParameterDecoder(param *openapi3.Parameter, values []string) 
 	}
 
 	mt := content.Get("application/json")
-	if mt == nil {
+	if mt == nil || mt.Schema == nil {
 		err = fmt.Errorf("parameter %q has no content schema", param.Name)
 		return
 	}
